@@ -34,7 +34,8 @@ Next ==
                     /\ (IF PictureEqF(e.fmt, e.src, e.back) THEN TRUE
                         ELSE LET d == FirstDiffF(e.fmt, e.src, e.back) IN
                              Viol("C15", "CellEq", l, [fmt |-> e.fmt, prep |-> e.opts.prep, x |-> d[1] - 1, y |-> d[2] - 1,
-                                                       src |-> CellAt(e.src, d[1], d[2]), back |-> CellAt(e.back, d[1], d[2]), kind |-> e.kind]))
+                                                       src |-> CellAt(e.src, d[1], d[2]), back |-> CellAt(e.back, d[1], d[2]), kind |-> e.kind,
+                                                       bom |-> Has(e, "head3") /\ e.head3 = <<239, 187, 191>>]))
                     \* ---- model layer: the loader model over the writer's bytes
                     /\ (IF e.model = 0 THEN TRUE
                         ELSE LET m == ReadFile(e.fmt, e.w, e.bytes) IN
